@@ -150,24 +150,26 @@ class _SolveIVP(torch.autograd.Function):
         # to connect the graph or not
 
         def pfunc2(t, y, tensor_params):
+            # every tensor param gets its own copy, so a tensor that is given
+            # more than once (e.g. twice in params, or in params and as an
+            # object's parameter) is differentiated once per place
             if not grad_enabled:
-                # if graph is not constructed, then use the default tensor_params
+                # if graph is not constructed, detached aliases are enough
+                tensor_params_copy = [p.detach().requires_grad_() for p in tensor_params]
                 ycopy = y.detach().requires_grad_()  # [yi.detach().requires_grad_() for yi in y]
                 tcopy = t.detach().requires_grad_()
-                f = pfcn(tcopy, ycopy, *params)
-                return f, tcopy, ycopy, tensor_params
             else:
                 # if graph is constructed, then use the clone of the tensor params
                 # so that infinite loop of backward can be avoided
                 tensor_params_copy = [p.clone().requires_grad_() for p in tensor_params]
                 ycopy = y.clone().requires_grad_()
                 tcopy = t.clone().requires_grad_()
-                allparams_copy = param_sep.reconstruct_params(tensor_params_copy)
-                params_copy = allparams_copy[:nparams]
-                objparams_copy = allparams_copy[nparams:]
-                with pfcn.useobjparams(objparams_copy):
-                    f = pfcn(tcopy, ycopy, *params_copy)
-                return f, tcopy, ycopy, tensor_params_copy
+            allparams_copy = param_sep.reconstruct_params(tensor_params_copy)
+            params_copy = allparams_copy[:nparams]
+            objparams_copy = allparams_copy[nparams:]
+            with pfcn.useobjparams(objparams_copy):
+                f = pfcn(tcopy, ycopy, *params_copy)
+            return f, tcopy, ycopy, tensor_params_copy
 
         # slices and indices definitions on the augmented states
         y_index = 0
